@@ -1,6 +1,7 @@
 package smtp
 
 import (
+	"bytes"
 	"crypto/tls"
 	"encoding/base64"
 	"errors"
@@ -1423,6 +1424,19 @@ func (c *Conn) readLine() (string, error) {
 // taken off the stream.
 func (c *Conn) resumeLineLimit() {
 	pending, _ := c.text.R.Peek(c.text.R.Buffered())
+	// What follows a BDAT command line is the payload of the next chunk, not
+	// command lines: it is not counted.
+	for i := 0; i < len(pending); {
+		j := bytes.IndexByte(pending[i:], '\n')
+		if j < 0 {
+			break
+		}
+		if cmd, _, err := parseCmd(string(pending[i : i+j+1])); err == nil && cmd == "BDAT" {
+			pending = pending[:i+j+1]
+			break
+		}
+		i += j + 1
+	}
 	c.lineLimitReader.resume(c.server.MaxLineLength, pending)
 }
 
